@@ -485,6 +485,14 @@ func (pc *propCheck) report(t0 time.Time) int {
 		}
 		fmt.Printf("VIOLATION property=%s replay=%s obligation=%q%s\n", pc.ID, path, ev.Name, suffix)
 	}
+	// stale contracts (renamed parameters/locals/helpers): reported, not violations
+	var stale []string
+	for _, r := range pc.Results {
+		if r.stale != "" && r.con != nil {
+			fmt.Printf("STALE-CONTRACT: property=%s %s: %s — the obligations of this function are not claimed in this run\n", pc.ID, r.con.FuncName, r.stale)
+			stale = append(stale, r.con.FuncName+": "+r.stale)
+		}
+	}
 	// evidence
 	var fuc, assumed, notes, warnings []string
 	noteSet := map[string]bool{}
@@ -528,6 +536,7 @@ func (pc *propCheck) report(t0 time.Time) int {
 		"unchecked":                notes,
 		"engine_warnings":          warnings,
 		"unclaimed":                unclaimedSeen,
+		"stale_contracts":          stale,
 		"replays_tried":            pc.nReplayTried,
 		"replays_confirmed":        pc.nReplayConfirmed,
 		"integers":                 "machine integers (64/32/16/8-bit vectors with wrap-around); no mathematical idealisation",
